@@ -54,7 +54,8 @@ from specs import sampler_spec as sp
 
 ID = 'C17'
 LEVEL = 'other'
-P_TARGETS = ['cgsmiles.sample:_set_bond_order_defaults', 'cgsmiles.sample:_select_bonding_operator', 'cgsmiles.sample:MoleculeSampler.add_fragment', 'cgsmiles.sample:MoleculeSampler.sample']
+P_TARGETS = ['cgsmiles.sample:_set_bond_order_defaults', 'cgsmiles.sample:_select_bonding_operator', 'cgsmiles.sample:MoleculeSampler.add_fragment', 'cgsmiles.sample:MoleculeSampler.sample',
+             'cgsmiles.sample:MoleculeSampler.__init__', 'cgsmiles.pysmiles_utils:compute_mass']
 BUDGET = {'quick': 34.0, 'thorough': 390.0}
 CHUNK = 100
 N_RANDOM = {'quick': 3000, 'thorough': 150000}
